@@ -159,8 +159,10 @@ def check_serializer(ctx, lib):
             d = describe_vector(lib, b, o, set(t[2][0]))
             ok = ok and d is not None and len(d) == 1 and d[0].source == {P2} and d[0].every_item and not d[0].fallible and \
                 bool(d[0].value) and all(v[0] == "agg" and v[1] == VAR + "::Number" and set(v[2][0]) == {ELEM} for v in d[0].value)
-        froms = [t for bd in [b] + lib.closures_of(b.deff) for _, t in bd.calls() if t["callee"] == "std::convert::From::from"]
-        ok = ok and len(froms) == 1 and froms[0]["callee_args"] == ["serde_json::Number", "u8"] and not casts_in(b) and not any(casts_in(c) for c in lib.closures_of(b.deff))
+        froms = [t for bd in [b] + lib.closures_of(b.deff) for _, t in bd.calls() if t["callee"] in ("std::convert::From::from", "std::convert::Into::into")]
+        conv_ok = len(froms) == 1 and ((froms[0]["callee"].endswith("From::from") and froms[0]["callee_args"] == ["serde_json::Number", "u8"]) or
+                                       (froms[0]["callee"].endswith("Into::into") and froms[0]["callee_args"] == ["u8", "serde_json::Number"]))
+        ok = ok and conv_ok and not casts_in(b) and not any(casts_in(c) for c in lib.closures_of(b.deff))
     row("serialize_bytes", ok, "Array of Number(byte) in order")
     b, o, okt, tails = R("serialize_unit")
     row("serialize_unit", bool(b) and len(okt) == 1 and not tails and ms(okt[0], Agg(VAR + "::Null")), "Null")
